@@ -601,14 +601,14 @@ Lemma pinned_traffic_double_report_refuted :
   exists sched,
     let s := rrun false 0 [CAdd [100]; RLock; RLock] sched in
     r_cnt (fst s) = 100 /\ r_stats (fst s) = 200 /\ r_calls (fst s) = [100; 100] /\ forallb r_finished (snd s) = true.
-Proof. exists ([0] ++ [1;1;1; 2;2;2] ++ repeat 1 5 ++ repeat 2 5). vm_compute. auto. Qed.
+Proof. exists ([0] ++ [1;1;1; 2;2;2] ++ repeat 1 5 ++ repeat 2 5)%nat. vm_compute. auto. Qed.
 
 (* pinned code, second shape: a stale `current` makes the delta negative (the reported total goes DOWN) *)
 Lemma pinned_traffic_negative_delta_refuted :
   exists sched,
     let s := rrun false 0 [CAdd [100; 50]; RLock; RLock] sched in
     exists d, In d (r_calls (fst s)) /\ d < 0.
-Proof. exists ([0] ++ [1;1] ++ [0] ++ repeat 2 8 ++ repeat 1 6). vm_compute. exists (-50). split; [auto|reflexivity]. Qed.
+Proof. exists ([0] ++ [1;1] ++ [0] ++ repeat 2 8 ++ repeat 1 6)%nat. vm_compute. exists (-50). split; [auto|reflexivity]. Qed.
 Close Scope Z_scope.
 
 (* ================================================================================================ *)
@@ -620,15 +620,21 @@ Section StreamProof.
   Definition PInv (s : psh * list ppc) : Prop :=
     (p_reader (fst s) = true /\ p_rclose (fst s) = 0) \/ (p_reader (fst s) = false /\ p_rclose (fst s) = 1).
 
+  Definition Pok (sh : psh) : Prop :=
+    (p_reader sh = true /\ p_rclose sh = 0) \/ (p_reader sh = false /\ p_rclose sh = 1).
+
+  Lemma pstep_rc t sh : Pok sh -> Pok (snd (pstep reads t sh)).
+  Proof.
+    destruct sh as [c d r rd rc pn]. unfold Pok. cbn [p_reader p_rclose].
+    intros [[-> ->]|[-> ->]]; destruct c, d, r; destruct t as [| | | | | | | | |left| |]; try destruct left;
+      cbn; auto.
+  Qed.
+
   Lemma pinv_step s i : PInv s -> PInv (sys_step _ _ (pstep reads) s i).
   Proof.
     destruct s as [sh ls]. unfold PInv, sys_step. cbn [fst snd]. intros H.
     destruct (nth_error ls i) as [x|] eqn:En; [|exact H].
-    destruct x; cbn [pstep];
-      repeat match goal with |- context [if ?c then _ else _] => destruct c eqn:? end;
-      try (destruct left); cbn [fst snd p_reader p_rclose]; auto;
-      repeat match goal with |- context [if ?c then _ else _] => destruct c eqn:? end; cbn [fst snd p_reader p_rclose]; auto.
-    all: destruct H as [[Hr Hc]|[Hr Hc]]; try congruence; right; split; [reflexivity|lia].
+    pose proof (pstep_rc x sh H) as H'. destruct (pstep reads x sh) as [x' sh']. exact H'.
   Qed.
 
   Theorem reader_closed_at_most_once ts sched :
@@ -647,10 +653,8 @@ Section StreamProof.
 
   Lemma closed_monotone t sh : p_closed sh = true -> p_closed (snd (pstep reads t sh)) = true.
   Proof.
-    intros H. destruct t; cbn [pstep];
-      repeat match goal with |- context [if ?c then _ else _] => destruct c eqn:? end;
-      try (destruct left); cbn [snd p_closed]; auto;
-      repeat match goal with |- context [if ?c then _ else _] => destruct c eqn:? end; cbn [snd p_closed]; auto.
+    destruct sh as [c d r rd rc pn]. cbn [p_closed]. intros ->.
+    destruct d, r, rd; destruct t as [| | | | | | | | |left| |]; try destruct left; cbn; auto.
   Qed.
 
   Lemma qinv_step j s i : QInv j s -> QInv j (sys_step _ _ (pstep reads) s i).
